@@ -735,8 +735,19 @@ def run(ctx):
         "Go language semantics of int64 +, -, += (two's complement wrap-around) — the model's wrap64",
         "latency aggregates (E2eProcessingLatencyAggregate.UnmarshalJSON / Add): only the SHAPE of the percentiles array is "
         "modelled and compared (Model/Latency, stream `latency`); the float values are not (open finding view:latency-overflow-500)",
-        "view_no_panic speaks about Fixes.all = /repo + fixes/F53 + fixes/F54; until those are committed the two defects are "
-        "open known findings replayed on every run",
+        "the model the driver runs is Fixes.all = /repo (F53, F54 are committed: 905ac51, 786fd8f) + fixes/F58 (`?inactive=true` "
+        "reports the errors of its per-topic fetches); until F58 is committed the defect is the open known finding "
+        "view:inactive-drops-errors (its cases are judged by the oracle and excluded from the model/impl comparison)",
+        "counter_view_from_upstreams states the counter map relative to the channel map of GetNSQDStats (itself described by "
+        "channels_merge over the upstreams' answers); that two different (topic, channel) pairs never share a key "
+        "`topic:channel` (names without ':') is not proved and not needed for the statement as given",
+        "which topics `?inactive=true` lists (exactly those without a non-null producer on any responding nsqlookupd, each with "
+        "the union of the channels) is tied by correspondence and the independent oracle, not by a theorem; the theorem is "
+        "inactive_warning (a failed per-topic answer gives a warning or a 502)",
+        "the merged channel list of /api/topics/:t (TopicStats.Add's channel part) has no theorem: it is compared by the "
+        "correspondence (views + add streams) and recomputed by the oracle on every answer",
+        "/info without broadcast_address is generated together with a missing http_port only (address ':0'); hostnames of "
+        "configured nsqds are 127.0.0.1 in the harness (Nsqd.host)",
         "sort.Sort returns a sorted permutation when Less is a strict weak order (library contract; order_by_host proves the "
         "by-hostname comparators are, order_clients_by_topology that ClientStatsByNodeTopology.Less is not)",
         "the per-node channel lists nested inside /api/topics/:t `nodes[]` are not compared (they alias the merged channel objects)",
@@ -745,7 +756,11 @@ def run(ctx):
                 "nodes, zero/small/huge counters, clients with/without optional members, duplicate names, version skew) x six views; "
                 "random failing answers in six flavours (500, 404, invalid JSON, wrong shape, out-of-range number, closed "
                 "connection); every subset of failing answers for a 2+2 cluster in both modes; a separate stream of structurally "
-                "inconsistent answers (short/long tombstones, null array elements, missing latency member, absent channel); "
+                "inconsistent answers (short/long tombstones, null array elements, missing latency member, absent channel), each also "
+                "next to a failing peer; `?inactive=true` in both modes with per-topic /lookup and /channels answers failing (random "
+                "and every subset for two nsqlookupds); negative counters; /info without broadcast_address / hostname in direct "
+                "mode; stream `add`: the real TopicStats.Add / ChannelStats.Add on random report sequences built as Go values "
+                "(nil/empty sub-slices, counters anywhere in int64, missing latency) against Counters.add / ChanAgg.add; "
                 "a case is distinct by its op line, non-trivial when the answer is a 200 with content; oracle: property_fails_on "
                 "(status/warning rule, union of topics, depth/message/backend sums) and process liveness")
     ctx.gen("e7_agg")
